@@ -171,6 +171,24 @@ def check_molecule(case, rec):
     if m.check_valence():
         rec.fail('check-valence', f'{str(m)!r}: check_valence()={m.check_valence()} on a molecule whose atoms all have a state')
     totals(m, rec, str(m))
+    # a hydrogen count written in a bracket atom that is a state of the tables for that atom must be the stored count
+    s = molgen.spec_smiles(spec)
+    if s is not None and '>' not in s:
+        from ..oracles import smiles_ref
+        try:
+            ref_atoms = smiles_ref.parse(s)['molecule']['atoms']
+        except Exception:
+            ref_atoms = None
+        if ref_atoms is not None and len(ref_atoms) == len(m):
+            for (n, a), ra in zip(m.atoms(), ref_atoms):
+                if ra['bracket'] and not ra['aromatic'] and ra['hcount'] is not None and ra['symbol'] == a.atomic_symbol and \
+                        not any(m.atom(k).atomic_number == 1 for k in m._bonds[n]):
+                    if ra['hcount'] in valence_ref.implicit_h_all(a, valence_ref.atom_neighbours(m, n)):
+                        rec.count('written-hydrogen-counts-checked')
+                        if a.implicit_hydrogens != ra['hcount']:
+                            rec.fail('written-h', f'{s!r} atom {n}: written with H{ra["hcount"]} (a state of the element tables), stored '
+                                                  f'count {a.implicit_hydrogens}', sig=a.atomic_symbol)
+                            return
     # RDKit per atom, text order, for corpus strings (both toolkits read the same text)
     s = molgen.spec_smiles(spec)
     if s is not None and spec['k'] == 'corpus':
